@@ -119,6 +119,7 @@ func (h *Session) findOrCreateHostWithLock(addr Addr) (host *Host, found bool) {
 		return host, true
 	}
 	h.mutex.RUnlock()
+	verifGate("foc.upgrade")
 
 	// lock session for writing
 	h.mutex.Lock()
